@@ -6,7 +6,6 @@ import (
 	"fmt"
 	"io"
 	"net"
-	"strings"
 
 	"github.com/mimecast/dtail/internal/config"
 	"github.com/mimecast/dtail/internal/io/dlog"
@@ -238,8 +237,11 @@ func (s *Server) Callback(c gossh.ConnMetadata,
 	}
 
 	authInfo := string(authPayload)
-	splitted := strings.Split(c.RemoteAddr().String(), ":")
-	remoteIP := splitted[0]
+	// An IPv6 address contains colons itself ("[fd00::5]:40022").
+	remoteIP, _, err := net.SplitHostPort(c.RemoteAddr().String())
+	if err != nil {
+		remoteIP = c.RemoteAddr().String()
+	}
 
 	switch user.Name {
 	case config.HealthUser:
